@@ -236,17 +236,36 @@ theorem mdMerge_mem (over : Bool) (existing : List String) : ∀ (re fe es : Lis
             | inl h3 => exact Or.inl h3
             | inr h3 => right; simp [h3]
 
+theorem bodyGroupsOK_cons_bundle (o : Obj) (body : List (String × Obj)) :
+    bodyGroupsOK (("metadatabundle", o) :: body) = bodyGroupsOK body := by
+  simp [bodyGroupsOK]
+
+theorem bodyGroupsOK_areplace_bundle (o : Obj) : ∀ (body : List (String × Obj)), bodyGroupsOK body = true →
+    bodyGroupsOK (areplace "metadatabundle" o body) = true
+  | [], _ => rfl
+  | (k, v) :: r, h => by
+    simp only [bodyGroupsOK, List.all_cons, Bool.and_eq_true] at h
+    simp only [areplace]
+    split
+    · next hk =>
+      subst hk
+      simp only [bodyGroupsOK, List.all_cons, Bool.and_eq_true, beq_self_eq_true, Bool.true_or, true_and]
+      exact h.2
+    · simp only [bodyGroupsOK, List.all_cons, Bool.and_eq_true]
+      exact ⟨h.1, bodyGroupsOK_areplace_bundle o r h.2⟩
+
 /-- the root body after `_append_root_metadata` is a valid root body: the bundle is tagged and all its entries
     (taken from the file's bundle or from the runtime root's) are tagged, typed Metadata groups -/
 theorem mdBody_ok (over : Bool) (body body' : List (String × Obj)) (entries : List (String × Obj))
     (hb : bodyOK "root" body = true) (he : entries.all (fun kv => mdEntryOK kv.2) = true)
     (h : mdBody over body entries = .ok body') : bodyOK "root" body' = true := by
   have hroot : ("root" == "array") = false := by decide
-  simp only [bodyOK, hroot, Bool.false_eq_true, if_false, Bool.and_true] at hb ⊢
+  simp only [bodyOK, hroot, Bool.false_eq_true, if_false, Bool.and_true, Bool.and_eq_true] at hb ⊢
+  obtain ⟨hb, hg⟩ := hb
   unfold mdBody at h
   by_cases hemp : entries.isEmpty = true
   · simp only [hemp, if_true, pure, Except.pure, Except.ok.injEq] at h
-    subst h; exact hb
+    subst h; exact ⟨hb, hg⟩
   · simp only [hemp, Bool.false_eq_true, if_false] at h
     cases hbm : alookup "metadatabundle" body with
     | none =>
@@ -256,6 +275,7 @@ theorem mdBody_ok (over : Bool) (body body' : List (String × Obj)) (entries : L
       | ok es =>
         simp only [hm, Except.ok.injEq] at h
         subst h
+        refine ⟨?_, by rw [bodyGroupsOK_cons_bundle]; exact hg⟩
         simp only [alookup, if_true, bundleOK, Bool.and_eq_true]
         refine ⟨by simp [Obj.gtype, Obj.attrs, bundleAttrs, alookup], ?_⟩
         rw [List.all_eq_true]
@@ -272,6 +292,7 @@ theorem mdBody_ok (over : Bool) (body body' : List (String × Obj)) (entries : L
       | ok es =>
         simp only [hm, Except.ok.injEq] at h
         subst h
+        refine ⟨?_, bodyGroupsOK_areplace_bundle _ body hg⟩
         rw [alookup_areplace_same _ _ _ (by simp [hbm])]
         cases b with
         | dataset a v => simp [bundleOK] at hb
@@ -574,6 +595,14 @@ theorem C05_metadata_entry_ok (cls : String) (items : List (String × PyVal)) (o
     simp only [mdEntryOK, Obj.gtype, Obj.pyClass, Obj.attrs, alookup, if_true, Bool.and_eq_true]
     exact ⟨⟨by simp, by simp⟩, mdItemsOK_saveItems items kids hs⟩
 
+/-- the Array writer creates datasets only: no group of an Array body needs a tag -/
+theorem toBody_groups_ok (ops : NumOps) (a : ArrayVal) : bodyGroupsOK (a.toBody ops) = true := by
+  simp only [bodyGroupsOK, ArrayVal.toBody, List.all_append, List.all_cons, List.all_nil, List.all_map, Bool.and_eq_true,
+    attrGroupOK, Bool.or_true, Bool.and_true, true_and]
+  refine ⟨?_, ?_⟩
+  · rw [List.all_eq_true]; intro n _; simp [attrGroupOK]
+  · cases a.isStack <;> simp [attrGroupOK]
+
 /-- C05, an Array NODE: the body `Node.to_h5` + `Array.to_h5` write — the metadata bundle (when the node carries Metadata)
     followed by the Array datasets — is a valid body for group type `array`, for every Array value and every list of
     Metadata entries written by `Metadata.to_h5` -/
@@ -600,11 +629,11 @@ theorem C05_array_node_ok (ops : NumOps) (a : ArrayVal) (entries : List (String 
           have := congrArg (fun (s : String) => s.toList.take 3 == ['d', 'i', 'm']) e
           simp only [dim_prefix] at this
           exact absurd this (by decide)
-    simp [this]
+    simp [this, toBody_groups_ok]
   · have hne : entries.isEmpty = false := by simpa using hemp
     simp only [bundleOf, hne, Bool.false_eq_true, if_false, List.cons_append, List.nil_append, bodyOK, alookup, if_true,
       beq_self_eq_true, Bool.and_eq_true]
-    refine ⟨?_, ?_⟩
+    refine ⟨⟨?_, ?_⟩, by rw [bodyGroupsOK_cons_bundle]; exact toBody_groups_ok ops a⟩
     · simp [bundleOK, Obj.gtype, Obj.attrs, bundleAttrs, alookup, he]
     · -- the bundle is neither `data` nor a `dim*` dataset
       have hb : (("metadatabundle" : String).toList.take 3 == ['d', 'i', 'm']) = false := by decide
@@ -617,6 +646,28 @@ theorem C05_array_node_ok (ops : NumOps) (a : ArrayVal) (entries : List (String 
         cases this
       simp only [hdim, if_false]
       exact harr
+
+/-- C05, node-valued attributes of Custom nodes: in a valid body every group other than the metadata bundle carries one
+    of the five `custom_<type>` tags of the vocabulary and a class name — nothing is untagged and no other tag occurs -/
+theorem C05_attr_groups_tagged (gtype : String) (body : List (String × Obj)) (h : bodyOK gtype body = true)
+    (k : String) (a : Attrs) (kids : List (String × Obj)) (hk : (k, Obj.group a kids) ∈ body) (hb : k ≠ "metadatabundle") :
+    ∃ t, (Obj.group a kids).gtype = some t ∧ t ∈ ["custom_node", "custom_array", "custom_pointlist", "custom_pointlistarray", "custom_custom"]
+      ∧ (Obj.group a kids).pyClass.isSome = true := by
+  simp only [bodyOK, Bool.and_eq_true] at h
+  have := (List.all_eq_true.mp h.2) _ hk
+  simp only [hb, beq_iff_eq, false_or, Bool.or_eq_true, attrGroupOK, Bool.and_eq_true] at this
+  cases ht : (Obj.group a kids).gtype with
+  | none => simp [ht] at this
+  | some t =>
+    simp only [ht] at this
+    refine ⟨t, rfl, ?_, this.2⟩
+    have h5 : EmdGen.customGroupTypes = ["custom_node", "custom_array", "custom_pointlist", "custom_pointlistarray", "custom_custom"] := by decide
+    rw [← h5]
+    simpa using this.1
+
+-- a group tagged with a class name instead of a group type (`custom_image`) makes the body invalid; retagged properly it is valid
+example : bodyOK "custom" [("first", .group [("emd_group_type", .str "custom_image"), ("python_class", .str "Image")] [])] = false := by decide
+example : bodyOK "custom" [("first", .group [("emd_group_type", .str "custom_array"), ("python_class", .str "Image")] [])] = true := by decide
 
 -- non-vacuity: the C09 example trees have valid bodies, and the files the model writes for them validate
 example : exF.allInfo infoOK = true ∧ exR.allInfo infoOK = true := by decide
